@@ -69,8 +69,8 @@ def AnnE.isLiteralRefOld : AnnE → Bool
   | .attr _ 0 => true
   | _ => false
 
-/-- `_AnnotationStringParser(ctx).visit(node)`. First component: the returned node, `none` = `SyntaxError`
-raised by `_parse_string`. Second component: the *original* node after the visit — `ast.NodeTransformer`
+/-- `_AnnotationStringParser(ctx).visit(node)`. First component: the returned node, `none` = `_parse_string`
+raised (`SyntaxError`; since 1297c95 `ValueError`, `MemoryError`, `RecursionError` are caught alike). Second component: the *original* node after the visit — `ast.NodeTransformer`
 works in place: `generic_visit` assigns a visited child back into its parent (`setattr(node, field, new)`
 for a single child such as `Attribute.value`, `BinOp.left`, `BinOp.right`; `old_value[:] = new_values` for
 a list such as `Tuple.elts`, only once every element has been visited), so when a later string raises,
@@ -665,8 +665,8 @@ for d in node.decorator_list:
     if deco_name is None: continue
     if isinstance(parent, model.Class):
         if deco_name[-1].endswith('property') or deco_name[-1].endswith('Property'): is_property = True
-        elif deco_name == ['classmethod']: is_classmethod = True
-        elif deco_name == ['staticmethod']: is_staticmethod = True
+        elif deco_name in (['classmethod'], ['builtins', 'classmethod']): is_classmethod = True
+        elif deco_name in (['staticmethod'], ['builtins', 'staticmethod']): is_staticmethod = True
         elif len(deco_name) >= 2 and deco_name[-1] in ('setter', 'deleter'): func_name = '.'.join(deco_name[-2:])
     if parent.expandName('.'.join(deco_name)) in ('typing.overload', 'typing_extensions.overload'):
         is_overload_func = True
@@ -701,6 +701,7 @@ def sProperty : List Char := ['p','r','o','p','e','r','t','y']
 def sPropertyCap : List Char := ['P','r','o','p','e','r','t','y']
 def sClassmethod : List Char := ['c','l','a','s','s','m','e','t','h','o','d']
 def sStaticmethod : List Char := ['s','t','a','t','i','c','m','e','t','h','o','d']
+def sBuiltins : List Char := ['b','u','i','l','t','i','n','s']
 def sSetter : List Char := ['s','e','t','t','e','r']
 def sDeleter : List Char := ['d','e','l','e','t','e','r']
 def sDotSetter : List Char := '.' :: sSetter
@@ -723,8 +724,8 @@ def decoStep (parentIsClass : Bool) (st : DecoState) (d : Deco) : DecoState :=
     let st1 :=
       if parentIsClass then
         if endsWith last sProperty || endsWith last sPropertyCap then { st with isProperty := true }
-        else if comps = [sClassmethod] then { st with isClassmethod := true }
-        else if comps = [sStaticmethod] then { st with isStaticmethod := true }
+        else if comps = [sClassmethod] ∨ comps = [sBuiltins, sClassmethod] then { st with isClassmethod := true }
+        else if comps = [sStaticmethod] ∨ comps = [sBuiltins, sStaticmethod] then { st with isStaticmethod := true }
         else if comps.length ≥ 2 ∧ (last = sSetter ∨ last = sDeleter) then
           { st with funcName := joinDot (comps.drop (comps.length - 2)) }   -- '.'.join(deco_name[-2:])
         else st
